@@ -67,8 +67,8 @@ def available_deployments() -> list[tuple[str, float]]:
 def gen_plan(seed: int, run: int, tier: str) -> dict:
     rng = common.rng_for(seed, run, "work")
     kind = common.weighted(rng, available_deployments())
-    ntasks = rng.choice([2, 2, 3])
-    names = ["a", "b", "c"][:ntasks]
+    ntasks = rng.choice([2, 2, 3]) if tier == "quick" else rng.choice([2, 3, 3, 4])
+    names = ["a", "b", "c", "d"][:ntasks]
     if kind == "mem":
         procs = {n: "P0" for n in names}
     elif kind.startswith("grpc("):
@@ -103,7 +103,7 @@ def gen_plan(seed: int, run: int, tier: str) -> dict:
     used_params: set = set()
     tasks: dict[str, dict] = {}
     for n in names:
-        tasks[n] = {"proc": procs[n], "ops": _task_script(rng, g, n, nobj, shared_running, shared_waiting, used_params, rng.randint(2, 5))}
+        tasks[n] = {"proc": procs[n], "ops": _task_script(rng, g, n, nobj, shared_running, shared_waiting, used_params, rng.randint(2, 5) if ntasks < 4 else rng.randint(2, 4))}
     cfg = {
         "deployment": kind,
         "p_line": rng.choice([0.01, 0.03, 0.1]),
